@@ -26,7 +26,10 @@ func (e *Enc) contractOfFn(fn *ssa.Function) *Contract {
 			}
 		}
 	}
-	// anonymous function: contract keyed by parent name + $n, written as func parent$1 – not supported in syntax; skip
+	// anonymous function: contract written as `func Parent__N(...)`, keyed by the SSA name Parent$N
+	if c, ok := e.DB.Contracts[fnKey(fn)]; ok {
+		return c
+	}
 	return nil
 }
 
